@@ -65,11 +65,25 @@ def run_units(units, tier):
             tmp[(u, kind)] = f.result()
     for u in units:
         gen, res = tmp[(u, "main")]
-        # rlimit retry
-        if any(x["reason"] == "rlimit" for x in res["undecided"]) and not any(x["reason"] != "rlimit" for x in res["undecided"]):
-            gen, res2 = run_unit(u, REPO, False, 40, "retry", None)
-            res2["retried_rlimit"] = True
-            res = res2
+        # A verdict other than "verified" is confirmed before it is believed: the unit is re-run with a 4x larger resource limit and
+        # two other solver seeds.  Any run that discharges every obligation is a valid proof (soundness does not depend on the seed),
+        # so proof brittleness (a hint that stops working after an unrelated edit) cannot raise an alarm; a real defect fails every run.
+        only_rlimit = res["undecided"] and all(x["reason"] == "rlimit" for x in res["undecided"])
+        if res["status"] == "failed" or only_rlimit:
+            first = res
+            for attempt, seed_ in enumerate((None, 17, 4242)):
+                extra = ["--smt-option", f"smt.random_seed={seed_}"] if seed_ is not None else None
+                gen2, res2 = run_unit(u, REPO, False, 240, f"retry{attempt}", None, extra)
+                res2["retries"] = attempt + 1
+                if res2["status"] == "verified":
+                    res = res2
+                    res["first_attempt"] = dict(status=first["status"], failures=[f["obligation"] for f in first["failures"]][:5])
+                    break
+                if first["status"] != "failed" and res2["status"] == "failed":
+                    first = res2
+            else:
+                res = first if first["status"] == "failed" else res2
+                res["retries"] = 3
         out[u] = (gen, res, tmp[(u, "canary")][1])
     return out
 
